@@ -629,7 +629,10 @@ impl<'a> Interp<'a> {
                 self.do_row(id, es)
             }
             Stmt::Let(n, e) => {
-                let v = self.ev(e)?;
+                let v = match self.ev(e) {
+                    Err(Stop::Err) if self.cont_rows => return Ok(()),
+                    other => other?,
+                };
                 if self.depth > 0 {
                     self.events.insert("let_in_loop");
                 }
@@ -643,7 +646,10 @@ impl<'a> Interp<'a> {
                 Ok(())
             }
             Stmt::Loop(v, e, body) => {
-                let n = self.ev(e)?;
+                let n = match self.ev(e) {
+                    Err(Stop::Err) if self.cont_rows => return Ok(()),
+                    other => other?,
+                };
                 self.bound_evals.push((s as *const Stmt as usize, n));
                 if !matches!(e, Expr::Lit(..)) {
                     self.events.insert("loop_bound_computed");
@@ -651,7 +657,10 @@ impl<'a> Interp<'a> {
                 self.run_loop(v, n, |me| me.exec(body))
             }
             Stmt::Repeat(e, es) => {
-                let n = self.ev(e)?;
+                let n = match self.ev(e) {
+                    Err(Stop::Err) if self.cont_rows => return Ok(()),
+                    other => other?,
+                };
                 self.bound_evals.push((s as *const Stmt as usize, n));
                 let id = self.node_ids[&(s as *const Stmt)];
                 self.events.insert("repeat");
@@ -857,8 +866,9 @@ pub fn run_opts(p: &Program, signals: &[Sig], env: &mut dyn Env, fuel: Fuel, con
     run_opts2(p, signals, env, fuel, cont, false)
 }
 
-/// `cont_rows`: also carry on after a row whose entries could not be evaluated (the row is
-/// replaced by an error item). Errors in let / bounds / conditions still end the run.
+/// `cont_rows`: also carry on after a statement whose expression could not be evaluated: the
+/// statement (row, let, loop, repeat) yields one error item and is skipped. A failing while
+/// condition still ends the run (it would fail again for ever).
 pub fn run_opts2(p: &Program, signals: &[Sig], env: &mut dyn Env, fuel: Fuel, cont: bool, cont_rows: bool) -> RefRun {
     let declares = p.declares();
     let bound = bind(&p.header, signals, &declares);
